@@ -26,6 +26,7 @@ TOML_KEY = {'opt': 'optimizations', 'vul': 'vulnerabilities', 'qa': 'qa'}
 SITES = ['Could not', 'Unrecgonized optimization', 'Unrecgonized vulnerability', 'Unrecgonized qa']
 SCRATCH = os.path.join(vlib.CACHE, 'opts')
 PRELUDE = 'pragma solidity ^0.8.10;\n'
+TRIVIAL = PRELUDE + 'contract C { }\n'
 
 
 def hexs(s):
@@ -43,10 +44,25 @@ def ascii_lower(s):
     return ''.join(chr(ord(c) + 32) if 'A' <= c <= 'Z' else c for c in s)
 
 
+GAP = {}      # non-ASCII character -> its all-ASCII lower-case form (exhaustive over Unicode, from the implementation)
+
+
+def load_gap(ctx):
+    if not GAP:
+        line = [l for l in vnames(ctx, ['lowercheck']) if l.startswith('lowercheck')][0]
+        for item in line.split(' ')[1:]:
+            cp, low = item.split(':')
+            GAP[chr(int(cp, 16))] = bytes.fromhex(low).decode('ascii')
+    return GAP
+
+
 def in_unicode_gap(s, known_lower):
-    """the stated gap of the model: a spelling with a non-ASCII character whose Unicode lower-casing
-    is a table name although its ASCII lower-casing is not (U+212A KELVIN SIGN -> k)"""
-    return any(ord(c) > 127 for c in s) and ascii_lower(s) not in known_lower and s.lower() in known_lower
+    """the stated gap of the model: a spelling with a non-ASCII character whose lower-case form (str::to_lowercase)
+    is made of ASCII characters - U+212A KELVIN SIGN -> k is the only one, established exhaustively by `vnames lowercheck` -
+    and which lower-cases to a table name"""
+    if not any(c in GAP for c in s):
+        return False
+    return ascii_lower(''.join(GAP.get(c, c) for c in s)) in known_lower
 
 
 # ----------------------------------------------------------------------------- spellings
@@ -188,6 +204,7 @@ def select_all(ctx, T, srcs):
 def part_names(rep, ctx, T):
     rng = random.Random(ctx.seed * 1000003 + 14)
     found = False
+    load_gap(ctx)
     items = []      # (cat, origin-name, tag, spelling, documented?)
     for cat in CATS:
         documented = list(dict.fromkeys(T[cat]['doc'] + T[cat]['toml']))
@@ -300,6 +317,7 @@ def part_names(rep, ctx, T):
     stats = {'name_spellings_known': n_known, 'unknown_spellings': len(unknown), 'unknown_rejected': n_unknown_rejected,
              'unicode_gap_spellings_skipped': gap, 'model_vs_impl_mismatches': mism,
              'model_evaluated': model is not None,
+             'non_ascii_characters_with_ascii_lowercase': ['U+%04X -> %s' % (ord(k), v) for k, v in sorted(GAP.items())],
              'unknown_tags': sorted(set(t for c, t, s in unknown))}
     return found, stats, len(q), [{'category': c, 'name': n, 'casing': t, 'spelling': s, 'impl': a}
                                   for (c, n, t, s, d), a in list(zip(items, impl))[:: max(1, n_known // 3)][:3]] + \
@@ -310,7 +328,7 @@ def part_names(rep, ctx, T):
 def pick_sources(ctx, T):
     """corpus sources (with a pragma put in front when they have none) on which no pattern panics,
     with what every pattern reports on them"""
-    cands = []
+    cands = [TRIVIAL]
     for p in gp.corpus():
         s = p['src']
         cands.append(s)
@@ -330,6 +348,12 @@ def part_link(rep, ctx, T, cands, sel):
             if r is None:
                 continue      # table name rejected: reported by part 1
             n += 1
+            if src == TRIVIAL and (r['lines'] == 'PANIC' or r['section'] == 'PANIC') and not found:
+                found = True
+                rep.violation('the %s name %r selects %s, for which %s panics on a trivial contract'
+                              % (cat, name, r['variant'], 'analyze_for_*' if r['lines'] == 'PANIC' else 'get_*_report_section'),
+                              {'kind': 'S', 'sub': 'link', 'category': cat, 'input': name, 'source': src, 'impl': 'PANIC',
+                               'spec': 'every selectable pattern is dispatched (no reachable `_ => panic!`)', 'theorem': 'dispatch_total'})
             if r['direct'] == 'nodet':
                 continue
             if r['direct'] not in ('-', 'PANIC'):
@@ -604,8 +628,6 @@ def part_runs(rep, ctx, T, cands, sel, only=None):
                     problems.append('exit status 0 although %s' % exp['why'])
                 if obs['report_written']:
                     problems.append('a report was written although %s' % exp['why'])
-                if 'exit' in exp and obs['exit'] != exp['exit'] and obs['exit'] != 0:
-                    problems.append('exit status %d, %d expected (%s)' % (obs['exit'], exp['exit'], exp['why']))
                 if not problems:
                     stats['runs_failed_as_demanded'] += 1
             else:
@@ -766,5 +788,18 @@ def replay(obj):
         r = select_all(ctx, T, [obj['source']])[(obj['category'], obj['input'])][0]
         print('name %r -> %s' % (obj['input'], r))
         return 1 if r is None or r['lines'] != r['direct'] else 0
+    if sub == 'default':
+        c = obj['category']
+        allv = {}
+        for l in vnames(ctx, ['all'])[:3]:
+            f = l.split(' ')
+            allv[f[1]] = f[2:]
+        documented = list(dict.fromkeys(T[c]['doc'] + T[c]['toml']))
+        ans = impl_names(ctx.harness, [(c, n) for n in documented])
+        print('%s() = %s' % (T[c]['fns'][0], allv[c]))
+        print('selected by the documented names:', sorted(set(ans)))
+        bad = [v for v in allv[c] if v not in ans] + [v for v in T[c]['variants'] if v not in allv[c]]
+        print('default patterns without a documented name / patterns that are not defaults:', bad or 'none')
+        return 1 if bad else 0
     print('nothing to replay for', obj.get('kind'), obj.get('what'))
     return 1
